@@ -47,6 +47,11 @@ func (g *GoTree) rnode(n *syntax.RegexNode, rtl bool) (string, bool) {
 	// the option word without the direction bit (the direction is structural in the model)
 	// (IgnoreCase is removed by reduce() from everything but Ref; the bit is exported as it is)
 	o := int(n.Options &^ syntax.RightToLeft)
+	if n.IsSetFamily() && n.Ch != 0 {
+		// a Set node that reduceSingleLetterAndNestedAlternations made out of a One keeps the One's Ch, and
+		// extractCommonPrefixOneNotoneSet compares Ch: the stale rune is part of the node's identity
+		o += int(n.Ch) << 16
+	}
 	dirOK := func(what string) bool {
 		if nodeRTL != rtl {
 			g.Unsupported = fmt.Sprintf("direction bit of %s node type %d contradicts its position", what, n.T)
